@@ -92,6 +92,18 @@ def dec_value(r):
     return v
 
 
+FIXED_PROGRAMS = [
+    'def f1 { splitters: uid if a in (lo, 5, hi) { return "A" weighted 1, "B" weighted 1 } else { return "C" weighted 1 } }',
+    'def f2 { splitters: uid if (a, 1) == (lo, (hi, 2)) { return "A" weighted 1 } else { return "B" weighted 1, "C" weighted 2 } }',
+    'def f3 { salt: "s" splitters: country, uid if age >= 21 and country in ("US", "CA") { return "control" weighted 1, "variant_a" weighted 2, "variant_b" weighted 2 } else if country not in ("US", "CA") { return "int_control" weighted 1, "int_variant" weighted 1 } else { return "default" weighted 1 } }',
+    'def f4 { splitters: uid if x in (1) { return 1 weighted 1, 1.0 weighted 1, "1" weighted 1 } else if x >= 1 { return 7 weighted 1, 7.0 weighted 1 } else { return 0.0 weighted 1, 0 weighted 1 } }',
+    'def f5 { splitters: uid if not (a == 1 or b == 1) { return "n" weighted 1 } else if (a == 1 or b == 1) and c == 1 { return "m" weighted 1 } else if a == 1 or b == 1 and c == 1 { return "k" weighted 1 } }',
+    'def f6 { splitters: uid if t >= 1 { if c == "fr" { return "fr" weighted 1 } else if c == "de" { return "de" weighted 1 } } else if t >= 0 { return "outer_elif" weighted 1 } else { return "outer_else" weighted 1 } }',
+    'def f7 { salt: "\'s\'" splitters: uid return "\'sale\'" weighted 1, \'"y"\' weighted 1, "rock \'n\'" weighted 1, "{x}" weighted 1, "a{{b" weighted 1 }',
+    'def f8 { salt: "{args!r:.1}+x+{0}" splitters: uid if s == "\\\' or 1): #" { return "A" weighted 1 } else { return "B" weighted 1, "\\" weighted 1 } }',
+    'def f9 { splitters: Bucket, account, _env, userId, user_id return "A" weighted 1, "B" weighted 1, "C" weighted 1, "D" weighted 1, "E" weighted 1 }',
+    'def f10 { salt: "\U0001F680x" splitters: uid return "A" weighted 1, "B" weighted 1 }',
+]
 SPECIAL_VALUES = [True, False, None, 1, "1", 1.0, "café", "josé", "", "x" * 500, "\x00", "'", "\\", 10 ** 40, -0.0, 1e300]
 
 
@@ -122,6 +134,12 @@ def pipeline_diff(req):
             if st == "ok":
                 progs.append((a, t))
     else:
+        for t in FIXED_PROGRAMS:
+            st, a = dsl_ref.parse_text(t)
+            if st == "ok":
+                progs.append((a, t))
+            else:
+                fail("spec-self-check", {"text": t, "why": "fixed program rejected by the reference parser: %s" % (a,)})
         for i in range(count):
             exp = dsl_ref.gen_experiment(rnd)
             try:
@@ -129,9 +147,10 @@ def pipeline_diff(req):
             except ValueError:
                 continue
             progs.append((exp, text))
-    for exp, text in progs:
+    nfixed = 0 if only else len(FIXED_PROGRAMS)
+    for pi, (exp, text) in enumerate(progs):
         st, back = dsl_ref.parse_text(text)
-        if st != "ok" or not same_value(back, exp) and not only:
+        if st != "ok" or not same_value(back, exp) and not only and pi >= nfixed:
             # the generator/renderer/reference-parser triple must round-trip; otherwise the case is not usable
             fail("spec-self-check", {"text": text, "why": "reference parser does not return the generated AST", "got": enc(back)})
             continue
@@ -167,6 +186,12 @@ def pipeline_diff(req):
                 stats["module_execs"] += 1
             except BaseException as e:   # noqa
                 fail("module", {"text": text, "layout": "exposed" if expose else "nested", "what": "generate_code text not executable: %s: %s" % (type(e).__name__, str(e)[:200])})
+        # a second evaluator built AFTER the module texts were generated: compilation must be history-independent
+        try:
+            ev2 = quiet(ExperimentEvaluator, text)
+        except BaseException as e:   # noqa
+            ev2 = None
+            fail("rebuild", {"text": text, "what": "a second ExperimentEvaluator of the same text raised %s: %s" % (type(e).__name__, str(e)[:200])})
         envs = dsl_ref.gen_envs(rnd, exp, req.get("envs", 6))
         spl, ids = dsl_ref.fields(exp)
         for f in spl:
@@ -218,6 +243,11 @@ def pipeline_diff(req):
                         fail("routing", case)
                     elif got[1] in ("SyntaxError", "NameError", "AttributeError"):
                         fail("internal-error", case)
+            if ev2 is not None:
+                g2 = call_outcome(ev2, env)
+                if (g2[0], g2[1] if g2[0] == "raise" else (dec_value(g2[1]), type(dec_value(g2[1])).__name__)) != \
+                        (got[0], got[1] if got[0] == "raise" else (dec_value(got[1]), type(dec_value(got[1])).__name__)):
+                    fail("rebuild", dict(case, what="a second evaluator built from the same text behaves differently", second=enc(list(g2)) if g2[0] == "raise" else ["group", enc(dec_value(g2[1]))]))
             # ---- C09: extra keyword arguments and argument order are irrelevant
             e3 = dict(reversed(list(env.items())))
             e3["zz_unrelated_extra"] = rnd.choice(SPECIAL_VALUES)
